@@ -5,10 +5,14 @@ cd /repo || exit 2
 git diff --quiet || { echo "/repo is dirty"; exit 2; }
 git apply "$patch" || { echo "patch does not apply"; exit 2; }
 cd /verif
+rm -rf /tmp/evidence.keep && cp -r evidence /tmp/evidence.keep
 for c in "$@"; do
   for seed in ${SEEDS:-0}; do
     VERIF_SEED=$seed ./check "$c" ${TIER:+--tier $TIER} 2>&1 | grep -E "^\[|^VIOLATION|^KNOWN|HARNESS|Traceback" | cut -c1-260
   done
 done
 git -C /repo checkout -- . 
+rm -rf evidence && mv /tmp/evidence.keep evidence
+/venv/bin/python -m harness.translate >/dev/null
+(cd lean && lake build driver >/dev/null 2>&1)
 git -C /repo diff --quiet && echo "(reverted)"
